@@ -109,7 +109,7 @@ def run(module, cfg=None, cfg_text=None, workers=16, timeout=900, env=None, simu
             f.write(cfg_text)
     cfg = cfg or module
     meta = common.subscratch("meta")
-    java = ["java", "-XX:+UseParallelGC"]
+    java = ["java", "-XX:+UseParallelGC", "-Xss64m"]
     if heap:
         java.append("-Xmx" + heap)
     if dfs:
@@ -140,6 +140,9 @@ def run(module, cfg=None, cfg_text=None, workers=16, timeout=900, env=None, simu
         r.rc, r.out = -9, (ex.stdout or "") if isinstance(ex.stdout, str) else (ex.stdout or b"").decode("utf8", "replace")
         r.error = f"TLC timed out after {timeout}s"
     r.wall = _now() - t0
+    if os.environ.get("VERIF_DEBUG_TLC"):
+        with open(os.environ["VERIF_DEBUG_TLC"] + (".fail" if r.rc not in (0,) else ""), "w") as f:
+            f.write(r.out)
     shutil.rmtree(meta, ignore_errors=True)
     m = None
     for m in _STATES.finditer(r.out):
